@@ -559,8 +559,8 @@ fn main() {
         );
     }
 
-    ctx.run_prop("random-constructors", arb_raw, tier.pick(2_000_000, 40_000_000), |x| check_constructors(*x));
-    ctx.run_prop("random-pairs", || (arb_in_range(), arb_in_range()), tier.pick(8_000_000, 200_000_000), |(a, b)| check_pair(*a as i128, *b as i128));
+    ctx.run_prop("random-constructors", arb_raw, tier.pick(4_000_000, 40_000_000), |x| check_constructors(*x));
+    ctx.run_prop("random-pairs", || (arb_in_range(), arb_in_range()), tier.pick(24_000_000, 200_000_000), |(a, b)| check_pair(*a as i128, *b as i128));
     let arb_mul = || {
         prop_oneof![
             2 => proptest::sample::select(multipliers()),
@@ -569,14 +569,14 @@ fn main() {
             1 => (0u64..64).prop_map(|s| 1u64 << s),
         ]
     };
-    ctx.run_prop("random-mul-div", || (arb_in_range(), arb_mul()), tier.pick(4_000_000, 80_000_000), |(a, m)| check_mul_div(*a as i128, *m));
-    ctx.run_prop("random-sum-lists", || proptest::collection::vec(arb_in_range(), 0..8), tier.pick(1_000_000, 20_000_000), |v| check_sum_list(v));
+    ctx.run_prop("random-mul-div", || (arb_in_range(), arb_mul()), tier.pick(12_000_000, 80_000_000), |(a, m)| check_mul_div(*a as i128, *m));
+    ctx.run_prop("random-sum-lists", || proptest::collection::vec(arb_in_range(), 0..8), tier.pick(4_000_000, 20_000_000), |v| check_sum_list(v));
     // long sums whose exact total leaves the machine type
     let arb_big = || prop_oneof![3 => Just(MAX_BALANCE), 2 => (MAX_BALANCE - 1000)..=MAX_BALANCE, 1 => (MAX_BALANCE / 2)..=MAX_BALANCE, 1 => Just(-MAX_BALANCE), 1 => 0i64..1000];
     ctx.run_prop(
         "long-sums",
         || (proptest::collection::vec(arb_big(), 1..4), prop_oneof![Just(4393u16), Just(8785), Just(8786), 4000u16..20000], proptest::collection::vec(arb_in_range(), 0..4)),
-        tier.pick(1_500, 60_000),
+        tier.pick(4_000, 60_000),
         |(head, reps, tail)| check_long_sum(head, *reps, tail),
     );
     ctx.require_label_fraction("long-sums", "total>u64::MAX", 0.15);
